@@ -13,7 +13,7 @@ class Spec:
         self.needs_release = False
         self.coqchk = True
         self.extra = []
-        self.timeout = {'quick': 300, 'thorough': 7200}
+        self.timeout = {'quick': 150, 'thorough': 7200}
         self.trusted_extra = []
         self.assumptions = []
         self.rule = ''
